@@ -9,7 +9,8 @@
    and track value still sits on the same nucleotides.                         *)
 EXTENDS CircularRecord
 
-CONSTANTS Len0, MaxDepth, TwoParts
+CONSTANTS Len0, MaxDepth, TwoParts,
+          TrackShiftLeft      \* FALSE = the design; TRUE = negative model: per-letter tracks rotated the other way (defect D4)
 
 VARIABLES rec, orig, net, depth, last, prev    \* prev/last: the transition that produced rec (for the replay harness)
 vars == <<rec, orig, net, depth, last, prev>>
@@ -33,11 +34,12 @@ Build == /\ depth = -1
                          track |-> [i \in 1..Len0 |-> 10 + i], meta |-> 7]
               IN rec' = r /\ orig' = r /\ prev' = r
          /\ net' = <<0, 0>> /\ depth' = 0 /\ last' = <<"Build">>
+RotRecX(r, k) == IF TrackShiftLeft THEN [RotRec(r, k) EXCEPT !.track = Rot(r.track, -k)] ELSE RotRec(r, k)
 RotR(k) == /\ depth >= 0 /\ depth < MaxDepth
-           /\ rec' = RotRec(rec, k) /\ net' = <<net[1], (net[2] + k) % Len0>>
+           /\ rec' = RotRecX(rec, k) /\ net' = <<net[1], (net[2] + k) % Len0>>
            /\ depth' = depth + 1 /\ last' = <<"RotR", k>> /\ prev' = rec /\ UNCHANGED orig
 RotL(k) == /\ depth >= 0 /\ depth < MaxDepth
-           /\ rec' = RotRec(rec, -k) /\ net' = <<net[1], (net[2] - k) % Len0>>
+           /\ rec' = RotRecX(rec, -k) /\ net' = <<net[1], (net[2] - k) % Len0>>
            /\ depth' = depth + 1 /\ last' = <<"RotL", k>> /\ prev' = rec /\ UNCHANGED orig
 RevComp == /\ depth >= 0 /\ depth < MaxDepth
            /\ rec' = RcRec(rec) /\ net' = <<1 - net[1], (-net[2]) % Len0>>
